@@ -39,6 +39,29 @@ if typing.TYPE_CHECKING:
 LOGGER = logging.getLogger(__name__)
 
 
+def identical(left: typing.Any, right: typing.Any) -> bool:
+    """Python-level (structural) identity of two features or feature constituents.
+
+    Unlike comparing hashes, this can't be fooled by colliding hash values (i.e. ``hash(-1) == hash(-2)``).
+
+    Args:
+        left: Feature (or its constituent) to be compared.
+        right: Feature (or its constituent) to be compared against.
+
+    Returns:
+        True if both are features of the same type made of identical constituents (or equal non-feature values).
+    """
+    if left is right:
+        return True
+    if isinstance(left, Feature) or isinstance(right, Feature):
+        return (
+            left.__class__ is right.__class__
+            and len(left) == len(right)
+            and all(identical(l, r) for l, r in zip(left, right))
+        )
+    return bool(left == right)
+
+
 def cast(value: typing.Any) -> 'dsl.Feature':
     """Attempt to create a literal instance of the value unless already a feature.
 
@@ -790,7 +813,7 @@ class Comparison(Predicate):
 
         def __bool__(self):
             if self.operator is Equal:
-                return hash(self.left) == hash(self.right)
+                return identical(self.left, self.right)
             if self.operator is LessThan:
                 return repr(self.left) < repr(self.right)
             raise RuntimeError(f'Unexpected Pythonic comparison using {self.operator}')
@@ -864,7 +887,7 @@ class Equal(Comparison, Infix):
             This doesn't reflect mathematical commutativity - order of potential sub-expression
             operands matters.
         """
-        return hash(self.left) == hash(self.right)
+        return identical(self.left, self.right)
 
 
 class NotEqual(Comparison, Infix):
